@@ -143,6 +143,17 @@ impl Gossip {
         Builder::new(address_book, endpoint)
     }
 
+    /// Verification-only constructor over a harness-provided gossip manager actor.
+    #[cfg(p2panda_p2panda_verif)]
+    pub fn verif_from_actor(
+        actor_ref: ActorRef<ToGossipManager>,
+        my_node_id: NodeId,
+        address_book: AddressBook,
+        config: GossipConfig,
+    ) -> Self {
+        Self::new(actor_ref, my_node_id, address_book, config)
+    }
+
     /// Join gossip overlay for this topic and return a handle to publish messages to it or receive
     /// messages from the network.
     pub async fn stream(&self, topic: Topic) -> Result<GossipHandle, GossipError> {
@@ -157,6 +168,9 @@ impl Gossip {
         if let Some((to_gossip_tx, from_gossip_tx, guard)) = self.senders.read().await.get(&topic)
             && guard.has_subscriptions()
         {
+            #[cfg(p2panda_p2panda_verif)]
+            p2panda_core::verif::point("gossip_stream:after_liveness_check");
+
             return Ok(GossipHandle::new(
                 topic,
                 max_message_size,
@@ -165,6 +179,9 @@ impl Gossip {
                 guard.clone(),
             ));
         }
+
+        #[cfg(p2panda_p2panda_verif)]
+        p2panda_core::verif::point("gossip_stream:before_subscribe");
 
         // If there's no active handle for this topic we join the overlay from scratch.
         let inner = self.inner.read().await;
